@@ -59,10 +59,10 @@ TfIn64Ok(v, q, n) ==
   IN BnLeq(BnMul(v, r), n16) /\ BnLt(n16, BnMul(BnAdd(v, <<1>>), r))
 
 \* ------------------------------------------------------------------ rounding with the float64 allowance
-\* v approximates num/den:  |v - num/den| <= 1/2 + (num/den) * 2^-50
-\*                     <=>  2^51 * |v*den - num| <= 2^50 * den + 2 * num
 \* a * 2^k (limbs are base 2^15: whole limbs are shifted in, the rest is one small multiplication)
 TfShl(a, k) == IF a = <<>> THEN <<>> ELSE [i \in 1..(k \div 15) |-> 0] \o BnMulSmall(a, 2 ^ (k % 15))
+\* v approximates num/den:  |v - num/den| <= 1/2 + (num/den) * 2^-50
+\*                     <=>  2^51 * |v*den - num| <= 2^50 * den + 2 * num
 TfNearOk(v, num, den) ==
   BnLeq(TfShl(BnAbsDiff(BnMul(v, den), num), 51), BnAdd(TfShl(den, 50), BnMulSmall(num, 2)))
 \* the mathematical rounding: |v - num/den| <= 1/2
